@@ -535,7 +535,7 @@ def run(run: Run):
         for k, text in viol:
             run.add_finding(Finding(k, WHAT.get(k, text), wit, observed=text, expected='no activity after the call returned; one task per slot'))
 
-    n = 140 if run.tier == 'quick' else 1200
+    n = 110 if run.tier == "quick" else 900
     seen_new = set()
     for i in range(n):
         ops = gen_ops(run.rng)
